@@ -333,4 +333,4 @@ var subLow = runlog.Register(&runlog.Sub[LCase]{
 	Run:  runLCase,
 })
 
-func TestLowLevel(t *testing.T) { subLow.Check(t, 60000, 3000000) }
+func TestLowLevel(t *testing.T) { subLow.Check(t, 100000, 2000000) }
